@@ -1,6 +1,8 @@
 package main
 
 import (
+	"errors"
+	"fmt"
 	"strings"
 	"sync/atomic"
 
@@ -68,6 +70,7 @@ func c06Ctx() pongo2.Context {
 		"t":    true,
 		"l":    []int{1, 2, 3},
 		"boom": func() string { atomic.AddInt64(&c06Boom, 1); return "BOOM" },
+		"fail": func() (string, error) { return "", errors.New("c06 failing function") },
 	}
 }
 
@@ -215,6 +218,9 @@ func c06Run(c *C) {
 		if c.WantSample() && len(s) > 0 && len(s) < 60 {
 			c.Sample(D{"kind": "identity", "source": q(s), "output": q(out)})
 		}
+		if len(s) > 0 && r.Chance(50) && !c06Routes(c, s) {
+			return
+		}
 	default:
 		// (ii)-(v) fragment sequences
 		n := 1 + r.Intn(8)
@@ -277,6 +283,111 @@ func c06Run(c *C) {
 			c.Sample(D{"kind": "fragments", "source": q(src.String()), "output": q(whole), "fragments": kinds})
 		}
 	}
+}
+
+// c06Routes: literal text is copied byte for byte whichever way its file reaches the engine - as the template itself
+// (memory loader, the built-in FSLoader over a file system with short reads, cache), included statically or by a
+// computed name, inserted by ssi, inherited from a parent without blocks - and also when executions that failed
+// half way through their output went before.
+func c06Routes(c *C, s string) bool {
+	r := c.R
+	ctx := c06Ctx()
+	ctx["incname"] = "/dir/s.txt"
+	big := s
+	if r.Chance(20) {
+		big = strings.Repeat(s, 1+r.Intn(1+70000/len(s))) // larger than common buffer and chunk sizes
+		for hasOpener(big) { // a seam may have formed one
+			big = strings.NewReplacer("{{", "{ {", "{%", "{ %", "{#", "{ #").Replace(big)
+		}
+	}
+	files := map[string]string{
+		"/dir/s.txt":     big,
+		"/inc.tpl":       `{% include "/dir/s.txt" %}`,
+		"/dir/rel.tpl":   `{% include "s.txt" %}`,
+		"/lazy.tpl":      `{% include incname %}`,
+		"/ssi.tpl":       `{% ssi "/dir/s.txt" %}`,
+		"/child.tpl":     `{% extends "/dir/s.txt" %}ignored{% block nosuch %}x{% endblock %}`,
+		"/twice.tpl":     `{% include "/dir/s.txt" %}{% include incname %}`,
+		"/bad_inc.tpl":   `{% include "/bad.tpl" %}`,
+		"/bad.tpl":       "partial output " + c06RandText(r, 30) + "{{ fail() }}tail",
+		"/bad_lazy.tpl":  `{% with incname="/bad.tpl" %}{% include incname %}{% endwith %}`,
+		"/bad_misc.tpl":  `{% filter upper %}abc{{ fail() }}{% endfilter %}`,
+		"/bad_macro.tpl": `{% macro m() %}in macro{{ fail() }}{% endmacro %}{% spaceless %}<a> {{ m() }}</a>{% endspaceless %}`,
+	}
+	routes := []struct {
+		file string
+		reps int
+	}{{"/dir/s.txt", 1}, {"/inc.tpl", 1}, {"/dir/rel.tpl", 1}, {"/lazy.tpl", 1}, {"/ssi.tpl", 1}, {"/child.tpl", 1}, {"/twice.tpl", 2}}
+	chunk := []int{1, 7, 64, 512, 4096, 32768}[r.Intn(6)]
+	fsFiles := map[string]string{}
+	for k, v := range files {
+		fsFiles[strings.TrimPrefix(k, "/")] = v
+	}
+	memSet, _ := newSet(files)
+	fsSet := pongo2.NewSet("chunkfs", pongo2.NewFSLoader(&chunkFS{files: fsFiles, chunk: chunk}))
+	sets := []struct {
+		name  string
+		set   *pongo2.TemplateSet
+		strip bool
+	}{{"memory loader", memSet, false}, {fmt.Sprintf("FSLoader, reads of at most %d bytes", chunk), fsSet, true}}
+	for round := 0; round < 2; round++ {
+		for _, st := range sets {
+			for _, rt := range routes {
+				name := rt.file
+				if st.strip {
+					name = strings.TrimPrefix(name, "/")
+				}
+				var tpl *pongo2.Template
+				var err error
+				if r.Bool() {
+					tpl, err = st.set.FromFile(name)
+				} else {
+					tpl, err = st.set.FromCache(name)
+				}
+				var out string
+				if err == nil {
+					out, err = tpl.Execute(ctx)
+				}
+				c.Eval(1)
+				want := strings.Repeat(big, rt.reps)
+				if err != nil || out != want {
+					d := D{"route": rt.file, "loader": st.name, "file_bytes": len(big), "output_bytes": len(out), "error": errStr(err), "after_failed_executions": round == 1}
+					if len(big) < 400 {
+						d["file"] = q(big)
+						d["output"] = q(out)
+					} else {
+						i := 0
+						for i < len(out) && i < len(want) && out[i] == want[i] {
+							i++
+						}
+						d["first_difference_at"] = i
+					}
+					c.Fail("identity-via-route", d)
+					return false
+				}
+				c.Cover("route_" + rt.file)
+			}
+			if round == 0 {
+				// executions that fail after having produced output, through every buffering construct
+				for _, bad := range []string{"/bad_inc.tpl", "/bad_lazy.tpl", "/bad_misc.tpl", "/bad_macro.tpl", "/bad.tpl"} {
+					name := bad
+					if st.strip {
+						name = strings.TrimPrefix(name, "/")
+					}
+					for k := 0; k < 3; k++ {
+						if tpl, err := st.set.FromFile(name); err == nil {
+							if _, xerr := tpl.Execute(ctx); xerr == nil {
+								c.Fail("identity-via-route", D{"route": bad, "why": "the failing function's error was lost"})
+								return false
+							}
+						}
+					}
+				}
+			}
+		}
+	}
+	c.Cover(fmt.Sprintf("route_chunk_%d", chunk))
+	return true
 }
 
 func c06RunEnum(c *C) {
